@@ -262,18 +262,55 @@ func c18(p *model.Prog, r *report.Result) {
 	wo := p.Func("pkg/rtmp", "MetadataEnsureWithoutSdf")
 	readString := p.MethodObj("pkg/rtmp", "amf0", "ReadString")
 	okWo := false
-	rsCalls := model.CallsTo(wo, readString)
-	if len(rsCalls) == 1 && len(wo.Params) == 1 && rsCalls[0].Common().Args[1] == ssa.Value(wo.Params[0]) {
-		call := rsCalls[0].(*ssa.Call)
-		var lenV ssa.Value
-		for _, ref := range *call.Referrers() {
-			if ex, ok := ref.(*ssa.Extract); ok && ex.Index == 1 {
-				lenV = ex
+	// consumed(v, b): v is the consumed length ReadString returned for b - directly, or as the
+	// result of a same-package helper that returns it (zero on its error returns)
+	var consumed func(v, b ssa.Value, d int) bool
+	consumed = func(v, b ssa.Value, d int) bool {
+		ex, ok := v.(*ssa.Extract)
+		if !ok || d > 2 {
+			return false
+		}
+		call, ok := ex.Tuple.(*ssa.Call)
+		if !ok {
+			return false
+		}
+		if model.SameFunc(model.CalleeObj(call.Common()), readString) {
+			return ex.Index == 1 && len(call.Call.Args) == 2 && call.Call.Args[1] == b
+		}
+		ce := call.Call.StaticCallee()
+		if ce == nil || ce.Blocks == nil || ce.Pkg != wo.Pkg || len(ce.Params) != len(call.Call.Args) {
+			return false
+		}
+		var inner ssa.Value
+		for k, a := range call.Call.Args {
+			if a == b {
+				inner = ce.Params[k]
 			}
 		}
+		if inner == nil {
+			return false
+		}
+		some := false
+		for _, ret := range model.ReturnsOf(ce) {
+			rvs := model.ReturnValues(ret)
+			if ex.Index >= len(rvs) {
+				return false
+			}
+			rv := rvs[ex.Index]
+			if k, isK := model.ConstInt(rv); isK && k == 0 {
+				continue
+			}
+			if !consumed(rv, inner, d+1) {
+				return false
+			}
+			some = true
+		}
+		return some
+	}
+	if len(wo.Params) == 1 {
 		model.EachInstr(wo, func(in ssa.Instruction) {
 			sl, ok := in.(*ssa.Slice)
-			if ok && sl.X == ssa.Value(wo.Params[0]) && sl.Low == lenV && sl.High == nil && lenV != nil {
+			if ok && sl.X == ssa.Value(wo.Params[0]) && sl.High == nil && sl.Low != nil && consumed(sl.Low, wo.Params[0], 0) {
 				okWo = true
 			}
 		})
